@@ -30,6 +30,15 @@ turns an UPDATE into `explode_announcements` followed by `explode_withdrawals`
 calls `explode_update` (`repaired`, commit 2186599: the withdrawal of a prefix that
 the same UPDATE announces is dropped, RFC 4271 4.3). An UPDATE of this model has
 one family, so "same NLRI" is "same prefix number".
+
+Fourth site, `dumpreg` (a separate `Site` argument of `processFileD` / `runQueueD`, so that
+`processFile` / `runQueue` and `Variant` keep their shape for the bridge `Model/PipeMrt.lean`):
+the peer index loop of `process_file` (`unit.rs:344-356`) calls `ingresses.register()` +
+`update_info` for every entry of every TABLE_DUMP_V2 file without a lookup (`asWritten`:
+`registerAll`; `processFileD .asWritten` *is* `processFile`) / calls
+`ingresses.find_or_register_peer(..)` like `process_message` does (`repaired`: `lookupAll`;
+proposed_fixes/PipeMrt-dump-registers-known-peer-again.diff). Repaired, one table that lists the
+same (address, ASN) twice gives both entries one id.
 -/
 namespace Rotonda.Mrt
 
@@ -196,6 +205,38 @@ def processFile (v : Variant) (parent : Nat) (reg : Reg) (f : File) : Res :=
         ⟨r.reg, o ++ r.out, r.status⟩
     | _ => msgLoop v parent reg f.recs
 
+/-- `find_or_register_peer` per peer index entry (the `dumpreg` repair): the same lookup under
+    this unit's id that `msgLoop` does per UPDATE, a fresh id only for an unknown peer. -/
+def lookupAll (r : Reg) (parent : Nat) : List Peer → Reg × List Nat
+  | [] => (r, [])
+  | p :: ps =>
+    let x : Reg × Nat := match r.find (some parent) p with
+      | some id => (r, id)
+      | none => r.register parent p
+    let y := lookupAll x.1 parent ps
+    (y.1, x.2 :: y.2)
+
+/-- The peer index loop (`unit.rs:344-356`) by `dumpreg` site: register and `ingress_map`. -/
+def peerIndexLoop (d : Site) (r : Reg) (parent : Nat) (ps : List Peer) : Reg × List Nat :=
+  match d with
+  | .asWritten => registerAll r parent ps
+  | .repaired => lookupAll r parent ps
+
+/-- `process_file` with the `dumpreg` site (`d = .asWritten`: `processFile`, theorem
+    `processFileD_asWritten`). -/
+def processFileD (d : Site) (v : Variant) (parent : Nat) (reg : Reg) (f : File) : Res :=
+  if !f.comp.readable then ⟨reg, [], .err⟩
+  else
+    match f.recs with
+    | .peerIndex ps :: rest =>
+      let rm := peerIndexLoop d reg parent ps
+      match dumpLoop rm.2 rest with
+      | (o, true) => ⟨rm.1, o, .panic⟩
+      | (o, false) =>
+        let r := msgLoop v parent rm.1 f.recs
+        ⟨r.reg, o ++ r.out, r.status⟩
+    | _ => msgLoop v parent reg f.recs
+
 structure QRes where
   reg : Reg
   out : List Upd
@@ -211,6 +252,17 @@ def runQueue (v : Variant) (parent : Nat) : Reg → List File → QRes
     | .panic, .asWritten => ⟨r.reg, r.out, (f :: fs).map fun _ => false⟩   -- the task is gone
     | _, _ =>
       let q := runQueue v parent r.reg fs
+      ⟨q.reg, r.out ++ q.out, true :: q.resps⟩
+
+/-- The queue consumer with the `dumpreg` site (what the driver runs). -/
+def runQueueD (d : Site) (v : Variant) (parent : Nat) : Reg → List File → QRes
+  | reg, [] => ⟨reg, [], []⟩
+  | reg, f :: fs =>
+    let r := processFileD d v parent reg f
+    match r.status, v.iso with
+    | .panic, .asWritten => ⟨r.reg, r.out, (f :: fs).map fun _ => false⟩
+    | _, _ =>
+      let q := runQueueD d v parent r.reg fs
       ⟨q.reg, r.out ++ q.out, true :: q.resps⟩
 
 end Rotonda.Mrt
